@@ -407,7 +407,8 @@ class EffectiveLindbladian(Gate):
         # step1. calc the eigenvalue decomposition of Choi matrix.
         #   Choi = \sum_{\alpha} c_{\alpha} |c_{\alpha}><c_{\alpha}| s.t. c_{\alpha} are eigenvalues and |c_{\alpha}> are eigenvectors of orthogonal basis.
         choi = mutil.toarray(self.to_choi_matrix())
-        eigen_vals, eigen_vecs = np.linalg.eig(choi)
+        # the Choi matrix is Hermitian: eigh returns orthonormal eigenvectors also inside a degenerate eigenspace
+        eigen_vals, eigen_vecs = np.linalg.eigh(choi)
         eigens = [
             (eigen_vals[index], eigen_vecs[:, index])
             for index in range(len(eigen_vals))
@@ -424,7 +425,7 @@ class EffectiveLindbladian(Gate):
         # step2. convert to Kraus representaion.
         #   K_{\alpha} = {\sqrt{c_{\alpha}}, unvec(|c_{\alpha}>)}
         kraus = [
-            (np.sqrt(eigen_val), eigen_vec.reshape((self.dim, self.dim)))
+            (np.sqrt(complex(eigen_val)), eigen_vec.reshape((self.dim, self.dim)))
             for (eigen_val, eigen_vec) in eigens
         ]
 
